@@ -1,0 +1,104 @@
+// Copyright 2026 Anapaya Systems
+//
+// Licensed under the Apache License, Version 2.0 (the "License");
+// you may not use this file except in compliance with the License.
+// You may obtain a copy of the License at
+//
+//   http://www.apache.org/licenses/LICENSE-2.0
+//
+// Unless required by applicable law or agreed to in writing, software
+// distributed under the License is distributed on an "AS IS" BASIS,
+// WITHOUT WARRANTIES OR CONDITIONS OF ANY KIND, either express or implied.
+// See the License for the specific language governing permissions and
+// limitations under the License.
+//! Verification hooks (cargo feature `verif-hooks`, default off, add-only): lets the /verif correspondence
+//! harness drive the SCMP dispatch of the socket receive loop and the crate-private SCMP error handler over an
+//! in-memory underlay.
+
+use std::{
+    collections::VecDeque,
+    io,
+    sync::{Arc, Mutex},
+};
+
+use async_trait::async_trait;
+use sciparse::{
+    address::ip_socket_addr::ScionSocketIpAddr,
+    core::view::View as _,
+    packet::view::ScionRawPacketView,
+};
+
+use crate::{
+    internal::Subscribers,
+    stack::{
+        BoundUnderlaySocket, ScionSocketReceiveError, ScionSocketSendError, UnderlaySocket,
+        scmp_handler::{ScmpErrorHandler, ScmpErrorReceiver, ScmpHandler},
+        socket::PathUnawareUdpScionSocket,
+    },
+};
+
+/// The two queues of the in-memory underlay.
+#[derive(Default)]
+pub struct Queues {
+    /// Raw packets still to be received by the socket.
+    pub incoming: Mutex<VecDeque<Vec<u8>>>,
+    /// Raw packets the socket sent (SCMP replies), in order.
+    pub sent: Mutex<Vec<Vec<u8>>>,
+}
+
+struct QueueUnderlay(Arc<Queues>);
+
+#[async_trait]
+impl UnderlaySocket for QueueUnderlay {
+    fn try_send(&self, packet: &ScionRawPacketView) -> Result<(), ScionSocketSendError> {
+        self.0.sent.lock().unwrap().push(packet.as_slice().to_vec());
+        Ok(())
+    }
+
+    async fn writeable(&self) {}
+
+    fn try_recv(&self, buf: &mut [u8]) -> Result<usize, ScionSocketReceiveError> {
+        loop {
+            let Some(raw) = self.0.incoming.lock().unwrap().pop_front() else {
+                return Err(ScionSocketReceiveError::IoError(io::Error::new(
+                    io::ErrorKind::ConnectionReset,
+                    "queue drained",
+                )));
+            };
+            // like the real underlays: only hand out packets that fit and decode
+            if raw.len() > buf.len() || ScionRawPacketView::try_from_slice(&raw).is_err() {
+                continue;
+            }
+            buf[..raw.len()].copy_from_slice(&raw);
+            return Ok(raw.len());
+        }
+    }
+
+    async fn readable(&self) {}
+}
+
+/// A [`PathUnawareUdpScionSocket`] over an in-memory underlay with the given SCMP handlers.
+pub fn socket_over_queues(
+    local_addr: ScionSocketIpAddr,
+    scmp_handlers: Vec<Box<dyn ScmpHandler>>,
+) -> (PathUnawareUdpScionSocket, Arc<Queues>) {
+    let queues = Arc::new(Queues::default());
+    let socket = PathUnawareUdpScionSocket::new(
+        BoundUnderlaySocket {
+            socket: Box::new(QueueUnderlay(queues.clone())),
+            local_addr,
+            snap_data_plane: None,
+        },
+        scmp_handlers,
+    );
+    (socket, queues)
+}
+
+/// The handler every UDP socket of the stack installs, forwarding SCMP errors to `receivers` (held weakly).
+pub fn error_handler(receivers: &[Arc<dyn ScmpErrorReceiver>]) -> Box<dyn ScmpHandler> {
+    let subscribers = Subscribers::new();
+    for r in receivers {
+        subscribers.register(r.clone());
+    }
+    Box::new(ScmpErrorHandler::new(subscribers))
+}
